@@ -322,7 +322,10 @@ def _gather(v, ax, idx):
                 k = idx.values[0]
                 return nf.slice_axis(v, a, k, D(k) + 1)
             raise Undecided("constant index list of length > 1")
-        return nf.gather_axis(v, a, idx.name, idx.size, perm=(idx.kind == "perm"))
+        if idx.kind == "compose":
+            # x[g[s]] = (x[g])[s]
+            return _gather(_gather(v, a, idx.parts[0]), a, idx.parts[1])
+        return nf.gather_axis(v, a, idx.name, idx.size, perm=(idx.kind == "perm"), inverse=bool(idx.inverse))
     raise Undecided(f"gather with {type(idx).__name__}")
 
 
@@ -481,6 +484,44 @@ def j_clip(I, args, kw):
     if (lo is None or it.is_num(lo)) and (hi is None or it.is_num(hi)):
         return nf.elementwise(f"Clip[{lo},{hi}]", _arr(a))
     raise Undecided("clip with array bounds")
+
+
+def j_argsort(I, args, kw):
+    """argsort of an index array of distinct entries is a permutation of its positions (an uninterpreted one: every permutation
+    is realised by some index list); argsort of a permutation is its inverse; argsort of a sorted array is the identity."""
+    it = _I()
+    a = args[0]
+    if not isinstance(a, it.IdxArr) or kw.get("axis") not in (None, 0, -1) or kw.get("descending"):
+        raise Undecided("argsort of a non-index array")
+    if a.kind == "arange":
+        return it.IdxArr(f"arange(0,{a.size})", a.size, kind="arange", lo=D(0))
+    if a.kind == "perm":
+        return it.IdxArr(a.name, a.size, kind="perm", inverse=not a.inverse)
+    if a.kind == "generic":
+        return it.IdxArr(f"argsort({a.name})", a.size, kind="perm")
+    raise Undecided(f"argsort of a {a.kind} index array")
+
+
+def j_sort(I, args, kw):
+    it = _I()
+    a = args[0]
+    if not isinstance(a, it.IdxArr):
+        raise Undecided("sort of a non-index array")
+    if a.kind == "arange":
+        return a
+    return _compose_idx(a, j_argsort(I, [a], {}))
+
+
+def _compose_idx(g, s):
+    """the index array g[s]"""
+    it = _I()
+    if not isinstance(s, it.IdxArr):
+        raise Undecided("index array indexed by a non-index array")
+    if s.kind == "arange" and (s.lo is None or D(s.lo).is_zero()) and s.size == g.size:
+        return g
+    if s.kind not in ("perm", "generic"):
+        raise Undecided(f"index array indexed by a {s.kind} index array")
+    return it.IdxArr(f"{g.name}[{'inv:' if s.inverse else ''}{s.name}]", s.size, kind="compose", parts=(g, s))
 
 
 def j_max(I, args, kw):
@@ -906,7 +947,7 @@ EXT = {
     "jax.numpy.concatenate": j_concatenate, "jax.numpy.hstack": j_hstack, "jax.numpy.block": j_block,
     "jax.numpy.stack": j_stack, "jax.numpy.eye": j_eye, "jax.numpy.zeros": j_zeros, "jax.numpy.ones": j_ones,
     "jax.numpy.empty": j_empty, "jax.numpy.arange": j_arange, "jax.numpy.array": j_array,
-    "jax.numpy.where": j_where, "jax.numpy.maximum": j_maximum, "jax.numpy.clip": j_clip, "jax.numpy.max": j_max, "jax.numpy.all": j_all,
+    "jax.numpy.where": j_where, "jax.numpy.maximum": j_maximum, "jax.numpy.clip": j_clip, "jax.numpy.argsort": j_argsort, "jax.numpy.sort": j_sort, "jax.numpy.max": j_max, "jax.numpy.all": j_all,
     "jax.numpy.logical_and": j_logical_and, "jax.numpy.greater_equal": _cmp0("Ge"),
     "jax.numpy.less_equal": _cmp0("Le"), "jax.numpy.equal": _cmp0("Eq"), "jax.numpy.isfinite": j_isfinite,
     "jax.numpy.squeeze": j_squeeze, "jax.numpy.ix_": j_ix, "jax.numpy.setxor1d": j_setxor1d,
@@ -1080,6 +1121,8 @@ def array_compare(I, op, l, r):
 def index(I, v, key):
     it = _I()
     if isinstance(v, it.IdxArr):
+        if len(key) == 1 and key[0][0] == "idx":
+            return _compose_idx(v, key[0][1])
         v = idx_to_val(v)
     nd = len(v.axes)
     # expand ellipsis
